@@ -4537,38 +4537,25 @@ impl Lexer<'_> {
                 // We know that the following WS may not be significant
                 self.push_mode(LexerMode::WsOrCStyleCommentOnly);
             }
-            '%' if is_valid_unicode_sas_name_start(self.cursor.peek_next()) => {
+            '%' if is_valid_unicode_sas_name_start(self.cursor.peek_next()) && {
+                // Only `%while`/`%until` are lexed right here. Any other macro call
+                // is a part of the loop variable name expression (%do %mcall_that_creates_iter_var),
+                // and must be lexed by the name expression mode pushed below. Otherwise
+                // the modes of the call would end up below the modes of the name expression.
+                let mut la_cursor = self.cursor.clone();
+                la_cursor.advance();
+                matches!(
+                    lex_macro_call_stat_or_label(&mut la_cursor),
+                    Ok((
+                        TokenTypeMacroCallOrStat::KwmUntil | TokenTypeMacroCallOrStat::KwmWhile,
+                        _
+                    ))
+                )
+            } =>
+            {
+                // %do %while/%until. The call below sets the mode stack
                 self.start_token();
                 self.lex_macro_identifier(false);
-
-                // This may be both %do %while/until or %do %mcall_that_creates_iter_var
-                // so we need to fork on the type of the last token. For %while/until
-                // we do nothing because lexer above has already set the mode stack,
-                // for the macro call we do the same as for all other symbols - push the,
-                // name expression mode, except that we know we've found at least the start
-                if self.buffer.last_token_info().is_some_and(|ti| {
-                    ![TokenType::KwmUntil, TokenType::KwmWhile].contains(&ti.token_type)
-                }) {
-                    self.push_mode(LexerMode::MacroEval {
-                        macro_eval_flags: MacroEvalExprFlags::new(
-                            MacroEvalNumericMode::Integer,
-                            MacroEvalNextArgumentMode::None,
-                            true,
-                            true,
-                            false, // doesn't matter really
-                        ),
-                        pnl: 0,
-                    });
-                    self.push_mode(LexerMode::WsOrCStyleCommentOnly);
-                    self.push_mode(LexerMode::ExpectSymbol(
-                        TokenType::ASSIGN,
-                        TokenChannel::DEFAULT,
-                    ));
-                    self.push_mode(LexerMode::WsOrCStyleCommentOnly);
-                    // Note the difference from below. We already lexed one part of the var name expr,
-                    // so we pass `true` and do not pass error, since it won't ever be emitted anyway
-                    self.push_mode(LexerMode::MacroNameExpr(true, None));
-                }
             }
             _ => {
                 // %do var=...; A mix of %let and %if expression
